@@ -265,3 +265,19 @@ func (o Observation) String() string {
 	return fmt.Sprintf("http=%d flows=%v logs=%q restarts=%d cached=%v backend=%s error=%q status=%d bytes=%d headers=%v%s",
 		o.HTTPStatus, o.Flows, o.Logs, o.Restarts, o.Cached, o.Backend, o.Error, o.RespStatus, o.RespBytes, hs, p)
 }
+
+
+// RunProbe runs the subroutine `probe` of probeSrc (parsed separately, like a test
+// file) against a minimal main VCL: one parse of the probe per run.
+func RunProbe(probeSrc, scope string) ([]string, error) {
+	ip, cap, err := Prepare("sub vcl_recv { }\n")
+	if err != nil {
+		return nil, err
+	}
+	decl, err := ParseSub(probeSrc, "probe")
+	if err != nil {
+		return nil, err
+	}
+	err = ip.ProcessTestSubroutine(Scopes[scope], decl)
+	return cap.Logs, err
+}
